@@ -73,11 +73,35 @@ func zipvmHandle(c map[string]J) map[string]J {
 	const maxRecords = 60
 	var events []J
 	type open struct {
-		rec  map[string]J
-		args []engine.Term
-		path []J
+		rec   map[string]J
+		args  []engine.Term
+		path  []J
+		body  bool // the head is done and the clause has a body: recording goes on until the first call
+		path2 []J
 	}
 	var cur *open
+	engine.VerifHooks.OnCall = func(_ *engine.VM, name engine.Atom, gargs []engine.Term, env *engine.Env) {
+		if cur == nil || !cur.body {
+			return
+		}
+		o := cur
+		cur = nil
+		// the call's arguments and the goal's arguments under one numbering of the variables
+		cn := &envCanon{env: env, ids: map[engine.Variable]int{}}
+		after := []J{}
+		for _, a := range o.args {
+			after = append(after, cn.term(a, 0))
+		}
+		ga := []J{}
+		for _, a := range gargs {
+			ga = append(ga, cn.term(a, 0))
+		}
+		if cn.big {
+			return
+		}
+		o.rec["after"], o.rec["goal"], o.rec["goalargs"], o.rec["path2"] = after, asciiName(name.String()), ga, o.path2
+		events = append(events, o.rec)
+	}
 	engine.VerifHooks.OnActivate = func(vc engine.VerifClause, args []engine.Term, env *engine.Env) {
 		cur = nil
 		if len(events) >= maxRecords || !user[fmt.Sprintf("%s/%d", vc.Name.String(), vc.Arity)] {
@@ -102,12 +126,24 @@ func zipvmHandle(c map[string]J) map[string]J {
 		cur = &open{rec: map[string]J{"ev": "activation", "pred": asciiName(vc.Name.String()), "arity": float64(vc.Arity), "nvars": float64(vc.NVars), "code": code, "args": before}, args: args}
 	}
 	engine.VerifHooks.OnInstr = func(op string) {
-		if cur != nil {
-			cur.path = append(cur.path, op)
+		if cur == nil {
+			return
 		}
+		if cur.body {
+			cur.path2 = append(cur.path2, op)
+			if op == "exit" { // a body of cuts only: no goal
+				events = append(events, cur.rec)
+				cur = nil
+			}
+			return
+		}
+		cur.path = append(cur.path, op)
 	}
 	engine.VerifHooks.OnHeadDone = func(env *engine.Env) {
 		if cur == nil {
+			return
+		}
+		if cur.body {
 			return
 		}
 		o := cur
@@ -125,10 +161,15 @@ func zipvmHandle(c map[string]J) map[string]J {
 			}
 		}
 		o.rec["after"] = after
+		if env != nil && len(o.path) > 0 && o.path[len(o.path)-1] == "enter" {
+			o.body = true // goes on until the first call (OnCall)
+			cur = o
+			return
+		}
 		events = append(events, o.rec)
 	}
 	defer func() {
-		engine.VerifHooks.OnActivate, engine.VerifHooks.OnInstr, engine.VerifHooks.OnHeadDone = nil, nil, nil
+		engine.VerifHooks.OnActivate, engine.VerifHooks.OnInstr, engine.VerifHooks.OnHeadDone, engine.VerifHooks.OnCall = nil, nil, nil, nil
 	}()
 	ctx, cancel := context.WithTimeout(context.Background(), wd(3*time.Second))
 	defer cancel()
